@@ -92,6 +92,8 @@ type c14out struct {
 	err      string
 	elapsed  time.Duration
 	nilOK    bool // success with a nil value
+	// lenient: only 'the caller gets control back' is judged (nested / concurrent scripts)
+	lenient bool
 }
 
 func c14Exec(sc c14script, cf c14conf, context string, r *lib.Run) c14out {
@@ -126,6 +128,32 @@ func c14Exec(sc c14script, cf c14conf, context string, r *lib.Run) c14out {
 			out.value = lib.Canon(v)
 			out.nilOK = v == nil
 		}
+	case "nested-run", "concurrent-actions":
+		// the script runs while ANOTHER script is running under the same Context:
+		// nested (an outer script calls Env.ProcessEvent and the rule's action is the
+		// script) or as one of two concurrently executed actions of one rule
+		rule := map[string]interface{}{"when": map[string]interface{}{"pattern": map[string]interface{}{"e": "?e"}}}
+		if context == "nested-run" {
+			rule["action"] = map[string]interface{}{"code": sc.Code}
+		} else {
+			rule["actions"] = []interface{}{map[string]interface{}{"code": "Env.sleep(1000000); 'first'"}, map[string]interface{}{"code": sc.Code}}
+		}
+		if _, aerr := loc.AddRule(ctx, "r", core.Map(rule)); aerr != nil {
+			out.returned = true
+			out.err = "addrule: " + aerr.Error()
+			break
+		}
+		if context == "nested-run" {
+			_, err := loc.RunJavascript(ctx, "Env.ProcessEvent({e:5}); 'outer-done'", nil, nil, nil)
+			out.returned = true
+			if err != nil {
+				out.err = err.Error()
+			}
+		} else {
+			loc.ProcessEvent(ctx, core.Map{"e": 5.0})
+			out.returned = true
+		}
+		out.lenient = true
 	case "condition", "or-condition", "action":
 		rule := map[string]interface{}{"when": map[string]interface{}{"pattern": map[string]interface{}{"e": "?e"}}}
 		if sc.Bind != nil {
@@ -217,7 +245,7 @@ func c14Scenario(sc c14script, cf c14conf, context string, bound int) *lib.Sched
 				}
 				return nil // no limit configured and the script never ends: nothing to contain
 			}
-			if !out.returned {
+			if !out.returned || out.lenient {
 				return nil
 			}
 			var vs []*lib.Violation
@@ -274,6 +302,16 @@ func c14Scenarios(tier string) []*lib.SchedScenario {
 		for _, def := range []time.Duration{10 * time.Millisecond, -1} {
 			for _, en := range []bool{true, false} {
 				confs = append(confs, c14conf{ctl, def, en})
+			}
+		}
+	}
+	for _, context := range []string{"nested-run", "concurrent-actions"} {
+		for _, sc := range c14Scripts {
+			if sc.Name != "forever" && sc.Name != "slow12ms" && sc.Name != "value" {
+				continue
+			}
+			for _, cf := range confs {
+				scs = append(scs, c14Scenario(sc, cf, context, bound))
 			}
 		}
 	}
@@ -392,7 +430,7 @@ func init() {
 	lib.Register(&lib.Check{
 		ID:    "C14",
 		Level: "model_checking",
-		Rule: "9 script families x 12 timeout settings (Control.JavascriptTimeout {0,5ms,<0} x DefaultJavascriptTimeout {10ms,<0} x JavascriptTimeouts on/off) x 4 contexts (RunJavascript, rule condition, a disjunct of a rule condition next to one that holds, rule action), each executed under the controlled scheduler with virtual time, every schedule with at most 2 deviations (3 thorough) where a deviation is a preemption or the watchdog timer landing early; plus native busy loops against a 20 s real-time deadline; " +
+		Rule: "9 script families x 12 timeout settings (Control.JavascriptTimeout {0,5ms,<0} x DefaultJavascriptTimeout {10ms,<0} x JavascriptTimeouts on/off) x 4 contexts (RunJavascript, rule condition, a disjunct of a rule condition next to one that holds, rule action), plus 3 of the families started while another script runs under the same Context (nested through Env.ProcessEvent; second of two concurrent actions) where only 'the caller gets control back' is judged, each executed under the controlled scheduler with virtual time, every schedule with at most 2 deviations (3 thorough) where a deviation is a preemption or the watchdog timer landing early; plus native busy loops against a 20 s real-time deadline; " +
 			"states = distinct observed outcomes, traces = schedules executed; non-trivial = distinct (scenario, outcome)",
 		Assumptions: []string{
 			"virtual time: code between two scheduling points takes no time; an early timer landing models slow real execution, so a finishing script may then end either way",
